@@ -225,13 +225,20 @@ def b_str(ex, node, st):
         if k == "exc":
             outs.append((s, k, vs))
             continue
-        r = STR_OF(ex.val_of(vs[0]))
+        x = ex.val_of(vs[0])
+        # CPython >= 3.11: str(int) raises ValueError past the integer string conversion length limit
+        big = s.fork().assume(isinst(x, "int"), z3.Not(isinst(x, "bool")), STR_TOO_LONG(x))
+        if ex.feasible(big):
+            outs.append(_exc(ex, big, "ValueError"))
+        s.assume(z3.Not(z3.And(isinst(x, "int"), z3.Not(isinst(x, "bool")), STR_TOO_LONG(x))))
+        r = STR_OF(x)
         s.assume(cls(r) == K("str"), T.alloc0[r])
         outs.append((s, "val", sv_val(r)))
     return outs
 
 
 STR_OF = z3.Function("str_of", Val, Val)
+STR_TOO_LONG = z3.Function("int_str_too_long", Val, T.B)
 
 BUILTINS = {
     "isinstance": b_isinstance,
